@@ -8,7 +8,7 @@ EnumDefineNode::EnumDefineNode(const Token &token, const Token &name, std::vecto
     : Node(token), name(name), values(std::move(values)) {}
 
 std::unique_ptr<NodeResult> EnumDefineNode::evaluate(PSC::Context &ctx) {
-    if (ctx.isIdentifierType(name, false))
+    if (ctx.isIdentifierType(name, true)) // a type name visible here (also a global one) cannot be defined again: two definitions of one name would be taken for one type
         throw PSC::RedefinitionError(token, ctx, name.value);
 
     PSC::EnumTypeDefinition definition(name.value, std::vector<std::string>(values));
